@@ -77,11 +77,31 @@ func c13Run(c *ev.Ctx) {
 		}
 	}
 	kind := []string{"i32", "i64", "f64", "u32"}[r.Intn(4)]
+	zeroStyle := 0
+	if r.Chance(1, 3) {
+		zeroStyle = r.Range(1, 3)
+	}
 	mkData := func(d []uint64, seed int) (hx.Val, []int64) {
 		n := int(hx.NumElems(d))
 		vals := make([]int64, n)
 		for i := range vals {
-			vals[i] = int64(seed*1000 + i + 1) // never zero: zero means "not written"
+			vals[i] = int64(seed*1000 + i + 1)
+		}
+		// one third of the data sets contain zeros: written zeros must behave like any other
+		// value (a region that happens to be all zero is still stored data)
+		switch zeroStyle {
+		case 1: // everything but the last quarter is zero
+			for i := 0; i < n-n/4-1 && i < n; i++ {
+				vals[i] = 0
+			}
+		case 2: // leading half zero
+			for i := 0; i < n/2; i++ {
+				vals[i] = 0
+			}
+		case 3: // every other element zero
+			for i := 0; i < n; i += 2 {
+				vals[i] = 0
+			}
 		}
 		v := hx.Val{Kind: "[]" + kind}
 		switch kind {
@@ -243,7 +263,7 @@ func c13Run(c *ev.Ctx) {
 		}
 		final = st.after
 	}
-	c.Case(fmt.Sprintf("sb%d|%s|%s|rank%d|chunk%v|max%v|%s", sbv, kind, filt, rank, chunk, maxd, patTag), len(steps) >= 1)
+	c.Case(fmt.Sprintf("sb%d|%s|z%d|%s|rank%d|chunk%v|max%v|%s", sbv, kind, zeroStyle, filt, rank, chunk, maxd, patTag), len(steps) >= 1)
 	c.Count("steps", int64(len(steps)))
 	c.Count("filters:"+filt, 1)
 	for _, p := range pat {
@@ -309,14 +329,14 @@ func c13Run(c *ev.Ctx) {
 var C13 = &ev.Property{
 	ID:    "C13",
 	Level: "exploration",
-	Rule: "each case creates a resizable chunked dataset (rank 1-3, extents 1-9, chunk 1-5 per axis incl. non-dividing, per-axis maximum unlimited / larger / equal to the extent, i32/i64/u32/f64, unfiltered or with a shuffle/deflate/Fletcher-32 pipeline, superblock 0/2/3, optionally followed by an unrelated dataset) and applies 1-10 steps from {grow, shrink, rewrite everything, resize beyond the maximum} in four patterns (random; grow-write-shrink-grow; shrink-grow; repeated grow); an N-d array model is resized with the same calls; every step's acceptance is compared with the declared maximum, and after Close and reopen shape and every element are compared (retained values, zero fill of new space, nothing resurrected after shrink-then-grow). " +
+	Rule: "each case creates a resizable chunked dataset (rank 1-3, extents 1-9, data with and without written zeros, chunk 1-5 per axis incl. non-dividing, per-axis maximum unlimited / larger / equal to the extent, i32/i64/u32/f64, unfiltered or with a shuffle/deflate/Fletcher-32 pipeline, superblock 0/2/3, optionally followed by an unrelated dataset) and applies 1-10 steps from {grow, shrink, rewrite everything, resize beyond the maximum} in four patterns (random; grow-write-shrink-grow; shrink-grow; repeated grow); an N-d array model is resized with the same calls; every step's acceptance is compared with the declared maximum, and after Close and reopen shape and every element are compared (retained values, zero fill of new space, nothing resurrected after shrink-then-grow). " +
 		"non-trivial: at least one step; distinct = (superblock, type, rank, chunk, maximum, step pattern).",
-	Assumptions: []string{"written values are never zero, so a zero read always means 'not written'"},
+	Assumptions: []string{"the symptom class in a key (retained / zero-fill / ghost) is derived from the expected value being zero or not; one third of the data sets contain written zeros, so that class is a hint, the comparison itself is exact"},
 	Cases: func(tier string) int {
 		if tier == "thorough" {
-			return 4000
+			return 20000
 		}
-		return 300
+		return 1500
 	},
 	Run:   c13Run,
 	Floor: func(tier string) int64 { return 50 },
